@@ -115,14 +115,14 @@ def fake_part(res, rng, drv, big):
     alphabet = ["a1", "a2", "a3", "a5", "w", "e", "t"]
     datas = [b"", b"\x01", b"\x01\x02\x03", bytes(range(5)), bytes(range(10))]
     n_ex = 0
-    maxlen = 5 if big else 4
+    maxlen = 6 if big else 5
     for L in range(0, maxlen + 1):
         for tokens in itertools.product(alphabet, repeat=L):
-            for data in (datas if L <= 3 else datas[2:4]):
+            for data in (datas if L <= 3 else (datas[2:4] if L <= 4 else datas[3:4])):
                 cases.append({"kind": "send", "data": data.hex(), "oracle": list(tokens)})
                 n_ex += 1
-    res.exhaustive_parts.append(f"every oracle sequence over {alphabet} up to length {maxlen} x data lengths 0,1,3,5,10 (3,5 for the longest): {n_ex} runs of send_data")
-    for i in range(3000 if big else 600):
+    res.exhaustive_parts.append(f"every oracle sequence over {alphabet} up to length {maxlen} x data lengths 0,1,3,5,10 (3,5 at length 4, 5 above): {n_ex} runs of send_data")
+    for i in range(5000 if big else 1500):
         n = rng.choice([0, 1, 2, 7, 100, 1000, 1024, 4096]) if rng.chance(1, 2) else rng.range(0, 300)
         data = rng.bytes(n)
         toks = []
@@ -177,7 +177,7 @@ def real_queue(size, blocks, tokens):
 
 def queue_part(res, rng, drv, big):
     cases, lines, answers = [], [], []
-    for i in range(1500 if big else 350):
+    for i in range(3000 if big else 800):
         size = rng.choice([1, 2, 3, 4, 7, 16])
         blocks = [rng.bytes(rng.choice([1, 2, 3, 4, 5, 8, 9, 15, 16, 17, 33])) for _ in range(rng.range(1, 4))]
         total = sum(map(len, blocks))
@@ -319,8 +319,8 @@ def main():
     rng = hlib.Rng(a.seed ^ 0xC10)
     drv = M.Driver()
     big = a.tier == "thorough" or a.search
-    res.rule = ("send_data on a scripted socket: every oracle sequence over {accept 1/2/3/5, EWOULDBLOCK, error, select time-out} up to length 4 "
-                "(thorough 5) x several data lengths (exhaustive) + random longer oracles with accept sizes around the data length; "
+    res.rule = ("send_data on a scripted socket: every oracle sequence over {accept 1/2/3/5, EWOULDBLOCK, error, select time-out} up to length 5 "
+                "(thorough 6) x several data lengths (exhaustive) + random longer oracles with accept sizes around the data length; "
                 "_process_send_queue with packet sizes 1..16 over 1-3 blocks and random oracles, one block just above the real packet size; "
                 "real loopback pairs with a small SO_SNDBUF and immediate / delayed / small-read peers (thorough: up to 8 MiB). "
                 "distinct = distinct (data, oracle); non-trivial = the oracle is not empty")
